@@ -14,7 +14,9 @@ ID = 'C04'
 MODULE = 'EmsModel.Props.C04'
 DRIVER = 'C04'
 REQUIRED = ['Ems.C04.lookup_none_iff', 'Ems.C04.lookup_least', 'Ems.C04.lookup_coherent',
-            'Ems.C04.lookup_order_independent', 'Ems.C04.firstHit_spec', 'Ems.C04.mem_hitSet']
+            'Ems.C04.lookup_order_independent', 'Ems.C04.firstHit_spec', 'Ems.C04.mem_hitSet',
+            'Ems.C04.rect_contains_iff', 'Ems.C04.cf1d_hit_iff', 'Ems.C04.cf1d_hits_eq',
+            'Ems.C04.cf1d_lookup_spec', 'Ems.C04.cf1d_lookup_none_iff']
 RULE = ('datasets of every convention with holes, sheared lattices, concave / collinear UGRID faces; points of the '
         'classes: cell interiors, midpoints of (shared) edges, (shared) vertices, hole interiors, just outside the '
         'hull (half a lattice unit), far outside. All points have dyadic coordinates, so GEOS predicates are exact. '
@@ -92,6 +94,12 @@ def examine(ctx, recipe, items) -> None:
                  shapely.Polygon([(float(a), float(b)) for a, b in q]).intersects(pt)]
         hl = f'hits {rings} {ps}'
         items.append((hl, ','.join(map(str, sorted(raw_hits))) or '-', {**desc, 'op': hl}))
+        if built.conv == 'cf1d' and all(v == '1' for v in vbits):
+            # CF 1-D: the hits from the dataset's bounds alone (interval containment, `Ems.cf1dHits`; proved equal
+            # to the exact test on the cell polygons in C04.cf1d_hits_eq) against what the real index reports
+            cl = 'cf1dhits ' + S.polys_args(built)[len('cf1d '):] + f' pt={ps}'
+            items.append((cl, ','.join(map(str, sorted(raw_hits))) or '-', {**desc, 'op': cl}))
+            ctx.count('cf1d-bounds-spec')
         if sorted(raw_hits) != brute:
             ctx.oracle_fail('strtree-differs-from-brute-force', desc, f'STRtree {sorted(raw_hits)} brute force {brute}')
         try:
